@@ -320,6 +320,13 @@ fn emit_function_cases(out: &mut impl Write, rng: &mut Rng, n: usize) -> usize {
 
 fn main() {
     limit_resources();
+    // watchdog: a mutated runtime that loops forever must not hang the check (SIGALRM kills the explorer)
+    extern "C" {
+        fn alarm(seconds: u32) -> u32;
+    }
+    unsafe {
+        alarm(if tier_is_thorough() { 1500 } else { 240 });
+    }
     let args: Vec<String> = std::env::args().collect();
     let out_path = args.get(1).expect("usage: c04 <ops-file> [--spec file] [lang...]").clone();
     let mut out = std::io::BufWriter::new(std::fs::File::create(&out_path).unwrap());
